@@ -115,4 +115,66 @@ theorem no_ancAdj_path_of_dSeparated (H : MG α) (hH : H.WF) (a b : α) (h : H.d
               unfold SameDistrict
               exact rtg_mono_idc hstep hpath
 
+/-- with any conditioning set: two nodes that are joined by a bidirected edge (or are the same node) and are not conditioned on
+are never reported as separated -/
+theorem dSeparated_ne_true_of_adjacent (H : MG α) (hH : H.WF) (a b : α) (Z : List α) (ha : a ∉ Z) (hb : b ∉ Z)
+    (hab : a = b ∨ H.BiEdge a b) : H.dSeparated a b Z ≠ .ok true := by
+  intro h
+  unfold dSeparated dSepEvidence at h
+  simp only [bind, Except.bind, pure, Except.pure] at h
+  cases hv : H.sepValidate a b Z with
+  | error e => rw [hv] at h; cases h
+  | ok _ =>
+    rw [hv] at h
+    simp only at h
+    cases hk : H.ancestorsInclusive (a :: b :: Z) with
+    | error e => rw [hk] at h; cases h
+    | ok keep =>
+      rw [hk] at h
+      simp only at h
+      have spec := ancestorsInclusive_spec H hH (a :: b :: Z) keep hk
+      unfold augment at h
+      simp only [bind, Except.bind, pure, Except.pure] at h
+      cases hc : (H.subgraph keep).districts.mapM (H.subgraph keep).districtClosure with
+      | error e => rw [hc] at h; cases h
+      | ok cls =>
+        rw [hc] at h
+        simp only at h
+        set A := H.subgraph keep with hA
+        set E := cls.foldl addClique A.moralize.disorient with hE
+        set F := E.subgraph (E.nodes.filter (· ∉ Z)) with hF
+        have hAwf : A.WF := wf_subgraph _ _
+        have hFwf : F.WF := wf_subgraph _ _
+        cases hp : F.hasPath a b with
+        | error e => rw [hp] at h; cases h
+        | ok pth =>
+          rw [hp] at h
+          simp only [Except.ok.injEq, Bool.not_eq_true'] at h
+          subst h
+          unfold hasPath at hp
+          split at hp
+          · cases hp
+          · rename_i haF
+            split at hp
+            · cases hp
+            · simp only [Except.ok.injEq, decide_eq_false_iff_not] at hp
+              have haF' : a ∈ F.nodes := by simpa using haF
+              apply hp
+              apply (mem_districtOf F hFwf a haF' b).2
+              rcases hab with rfl | hbi
+              · exact .refl
+              · have hak : a ∈ keep := (spec a).2 ⟨a, by simp, .refl⟩
+                have hbk : b ∈ keep := (spec b).2 ⟨b, by simp, .refl⟩
+                have hnodeE : ∀ u, u ∈ keep → u ∈ E.nodes := by
+                  intro u hu
+                  apply mem_nodes_foldl_addClique_mono
+                  rw [mem_nodes_disorient _ (wf_moralize _ hAwf), mem_nodes_moralize _ hAwf, hA, mem_nodes_subgraph]
+                  exact hu
+                refine ReflTransGen.single ?_
+                rw [hF, biEdge_subgraph]
+                refine ⟨?_, by simp [hnodeE a hak, ha], by simp [hnodeE b hbk, hb]⟩
+                apply biEdge_foldl_addClique_mono
+                rw [edge_disorient, biEdge_moralize_iff _ hAwf, hA, biEdge_subgraph]
+                exact Or.inr (Or.inr (Or.inl ⟨hbi, hak, hbk⟩))
+
 end Y0.MG
